@@ -6,6 +6,6 @@ import "golang.org/x/tools/go/ssa"
 
 // Verification hooks compile to nothing without -tags verif.
 
-func verifReorderBlocks(ea *functionAnalysisState)             {}
-func verifReorderFuncs(wl []*functionAnalysisState)            {}
+func verifReorderBlocks(ea *functionAnalysisState)            {}
+func verifReorderFuncs(wl []*functionAnalysisState)           {}
 func verifMonoViolation(instr ssa.Instruction, reason string) {}
